@@ -392,6 +392,11 @@ def extreme_unit(F, S, struct, rid, transform=None):
             if not ok:
                 bad = "%s becomes %s; the cached-extreme step requires %s" % (nm, show(got)[:110], show(want)[:110])
                 break
+            import specs as _sp
+            hz_ = _sp.float_hazard(got, want)
+            if hz_:
+                bad = "%s is computed with %s: the cached-extreme step only in real arithmetic" % (nm, hz_)
+                break
         if bad is None:
             okb = (cur, mn, d2)
             break
